@@ -133,8 +133,9 @@ class C14(Prop):
                     yield c2
             n = len(c["b"])
             if n > 24:
-                # a big batch: drop runs of events (every candidate costs a dozen fresh databases)
-                for parts in (2, 4, 8, 16):
+                # a big batch: drop runs of events; few candidates per round, because every one of them costs
+                # nine fresh databases and several seconds of evaluation in one shard
+                for parts in (2, 4):
                     w = max(1, n // parts)
                     for lo in range(0, n, w):
                         yield dict(copy.deepcopy(c), b=c["b"][:lo] + c["b"][lo + w:])
